@@ -41,6 +41,23 @@ func (m *c06Raw) Reset()         { m.p = nil }
 func (m *c06Raw) String() string { return fmt.Sprintf("%x", m.p) }
 func (m *c06Raw) ProtoMessage()  {}
 
+// c06Bad is a legacy message whose Marshal method fails (widening: the error return of
+// pbcmpl.marshal / pbcmpl.Marshal)
+type c06EncodeError struct{}
+
+func (c06EncodeError) Error() string { return "c06: message refuses to be marshalled" }
+
+type c06Bad struct{ c06Raw }
+
+func (m *c06Bad) Marshal() ([]byte, error) { return nil, c06EncodeError{} }
+
+type c06BadV struct {
+	c06Bad
+	ver string
+}
+
+func (m *c06BadV) GetVersion() string { return m.ver }
+
 type c06RawV struct {
 	c06Raw
 	ver string
@@ -182,6 +199,8 @@ func c06ErrClass(err error) int {
 		return 5
 	case c == c06ErrDecode || strings.Contains(c.Error(), "c06: body rejected"):
 		return 6
+	case strings.Contains(c.Error(), "c06: message refuses to be marshalled"):
+		return 7
 	}
 	return 9
 }
@@ -250,7 +269,81 @@ func c06RunReadHeader(r *c06Reader) string {
 	return L(I(n), "0", Str(h.GetVersion()), I(h.GetHeaderSize()), I(h.GetBodySize()))
 }
 
+// c06Walk is the user program of the widening (Model/PbcmplWalk.v): ReadHeader, then
+// io.ReadFull of exactly GetBodySize bytes, frame after frame, without decoding.
+// One step: [n, errclass, ver, hsize, bsize, body bytes read, refused]
+func c06Walk(r *c06Reader, total int) (string, string) {
+	var steps []string
+	for i := 0; i <= total/32+2; i++ {
+		n, h, err := pbcmpl.ReadHeader(r)
+		if err != nil || h == nil {
+			steps = append(steps, L(I(n), Int(c06ErrClass(err)), Str(""), "0", "0", Bytes(nil), "0"))
+			break
+		}
+		ver, hs, bs := h.GetVersion(), h.GetHeaderSize(), h.GetBodySize()
+		if hs != 32 || bs < 0 || bs > 65536 {
+			steps = append(steps, L(I(n), "0", Str(ver), I(hs), I(bs), Bytes(nil), "1"))
+			break
+		}
+		b := make([]byte, bs)
+		nb, err := io.ReadFull(r, b)
+		steps = append(steps, L(I(n), Int(c06ErrClass(err)), Str(ver), I(hs), I(bs), Bytes(b[:nb]), "0"))
+		if err != nil {
+			break
+		}
+	}
+	return L(steps...), Bytes(r.left())
+}
+
+// c06InsertEmpties inserts an empty chunk before the chunk of index p mod len(cs), for each p in
+// turn (Model: Run/PbcmplWalkOps.v insert_empties); positions are non-negative.
+func c06InsertEmpties(pos []int64, cs [][]byte) [][]byte {
+	for _, p := range pos {
+		if len(cs) == 0 {
+			continue
+		}
+		at := int(p % int64(len(cs)))
+		cs = append(cs[:at], append([][]byte{{}}, cs[at:]...)...)
+	}
+	return cs
+}
+
 func init() {
+	// [kind, [msg...], chunk pattern, eof with the last chunk, positions of empty chunks]
+	Exec["pbcmpl.Roundtrip/empties"] = func(a []V) string {
+		kind := a[0].Int()
+		w := &c06Writer{}
+		for _, mv := range a[1].L {
+			pbcmpl.Marshal(w, c06Msg(kind, mv))
+		}
+		r := c06NewReader(w.out, a[2].I64s(), 0, a[3].Bool())
+		r.chunks = c06InsertEmpties(a[4].I64s(), r.chunks)
+		steps, left := c06RunStream(kind, r, len(w.out))
+		return L(Bytes(w.out), steps, left)
+	}
+	// [kind, [msg...], chunk pattern, eof with the last chunk]
+	Exec["pbcmpl.Walk/frames"] = func(a []V) string {
+		kind := a[0].Int()
+		w := &c06Writer{}
+		for _, mv := range a[1].L {
+			pbcmpl.Marshal(w, c06Msg(kind, mv))
+		}
+		r := c06NewReader(w.out, a[2].I64s(), 0, a[3].Bool())
+		steps, left := c06Walk(r, len(w.out))
+		return L(steps, left)
+	}
+	// widening: [[hasver, ver, payload], [[accept, fail], ...]] with a message whose Marshal method fails
+	// -> [n, errclass, bytes that reached the writer, HeaderSize(msg)]
+	Exec["pbcmpl.Marshal/encerr"] = func(a []V) string {
+		hasver, ver, payload := a[0].L[0].Bool(), a[0].L[1].Str(), a[0].L[2].Bytes()
+		var msg proto.Message = &c06Bad{c06Raw{p: payload}}
+		if hasver {
+			msg = &c06BadV{c06Bad{c06Raw{p: payload}}, ver}
+		}
+		w := &c06Writer{script: a[1].L}
+		n, err := pbcmpl.Marshal(w, msg)
+		return L(I(n), Int(c06ErrClass(err)), Bytes(w.out), Int(pbcmpl.HeaderSize(msg)))
+	}
 	// [kind, [hasver, ver, payload]]
 	Exec["pbcmpl.Marshal"] = func(a []V) string {
 		return c06RunMarshal(a[0].Int(), a[1], nil)
@@ -478,6 +571,87 @@ func genC06(g *Gen) {
 		}
 		roundtrip(kind, msgs, lens, vlens, c06Pattern(g.R), g.R.Intn(3) == 0, fmt.Sprintf("rand-frames%d", nf))
 	}
+	// (6) widening: readers that return (0, nil) between chunks: empty chunks at the start, at frame and
+	// header/body boundaries (pattern {32, body}) and at random places
+	empties := func(kind int, msgs []string, pat []int64, wl bool, pos []int64, bucket string) {
+		g.Stat(bucket)
+		g.Do("pbcmpl.Roundtrip/empties", L(Int(kind), L(msgs...), I64s(pat), B(wl), I64s(pos)),
+			fmt.Sprintf("emp/k%d/f%d/%s/wl%s/e%d", kind, len(msgs), c06PatClass(pat), B(wl), len(pos)))
+	}
+	for kind := 0; kind <= 1; kind++ {
+		for _, bl := range []int{0, 1, 33, 513} {
+			m := c06MsgText(true, c06Ver(g.R, g.R.Range(0, 16), 0), c06Payloadgen(g.R, bl))
+			for _, pos := range [][]int64{{0}, {1}, {0, 0}, {1, 1, 1}, {0, 2, 4}} {
+				empties(kind, []string{m}, []int64{32, 7}, len(pos)%2 == 0, pos, "empties-boundary")
+				empties(kind, []string{m, m}, []int64{int64(32 + bl + 2)}, len(pos)%2 == 1, pos, "empties-frame-boundary")
+			}
+		}
+	}
+	n = g.N(300, 8000)
+	for i := 0; i < n; i++ {
+		kind := g.R.Intn(2)
+		nf := g.R.Range(1, 4)
+		var msgs []string
+		for f := 0; f < nf; f++ {
+			bl := g.R.Pick(0, 1, 31, 32, 33, g.R.Range(0, 200), g.R.Range(0, 12))
+			hasver := g.R.Intn(4) != 0
+			ver := ""
+			if hasver {
+				ver = c06Ver(g.R, g.R.Range(0, 16), g.R.Intn(3))
+			}
+			msgs = append(msgs, c06MsgText(hasver, ver, c06Payloadgen(g.R, bl)))
+		}
+		pos := make([]int64, g.R.Range(1, 5))
+		for j := range pos {
+			pos[j] = int64(g.R.Intn(40))
+		}
+		empties(kind, msgs, c06Pattern(g.R), g.R.Intn(3) == 0, pos, fmt.Sprintf("empties-rand%d", nf))
+	}
+
+	// (5) widening: the same kinds of streams walked with ReadHeader + io.ReadFull (no decoding)
+	walk := func(kind int, msgs []string, maxl int, pat []int64, wl bool, bucket string) {
+		g.Stat(bucket)
+		g.Do("pbcmpl.Walk/frames", L(Int(kind), L(msgs...), I64s(pat), B(wl)),
+			fmt.Sprintf("walk/k%d/f%d/b%s/%s/wl%s", kind, len(msgs), c06LenClass(maxl), c06PatClass(pat), B(wl)))
+	}
+	for kind := 0; kind <= 1; kind++ {
+		for _, bl := range []int{0, 1, 31, 32, 33, 127, 128, 511, 512, 513, 4096} {
+			for pi, pat := range [][]int64{nil, {1}, {7}, {32, 5}, {512}} {
+				if bl > 600 && len(pat) == 1 && pat[0] == 1 && !g.Thorough {
+					continue
+				}
+				vl := g.R.Range(0, 16)
+				m1 := c06MsgText(true, c06Ver(g.R, vl, g.R.Intn(3)), c06Payloadgen(g.R, bl))
+				m2 := c06MsgText(false, "", c06Payloadgen(g.R, g.R.Range(0, 5)))
+				walk(kind, []string{m1}, bl, pat, pi%2 == 1, "walk-exh1")
+				walk(kind, []string{m2, m1, m2}, bl, pat, pi%2 == 0, "walk-exh3")
+			}
+		}
+	}
+	n = g.N(400, 10000)
+	for i := 0; i < n; i++ {
+		kind := g.R.Intn(2)
+		nf := g.R.Range(0, 5)
+		var msgs []string
+		maxl := 0
+		for f := 0; f < nf; f++ {
+			bl := g.R.Pick(0, 1, 31, 32, 33, g.R.Range(0, 300), g.R.Range(0, 12))
+			if g.R.Intn(60) == 0 {
+				bl = g.R.Range(500, 1500)
+			}
+			if bl > maxl {
+				maxl = bl
+			}
+			hasver := g.R.Intn(4) != 0
+			ver := ""
+			if hasver {
+				ver = c06Ver(g.R, g.R.Range(0, 16), g.R.Intn(3))
+			}
+			msgs = append(msgs, c06MsgText(hasver, ver, c06Payloadgen(g.R, bl)))
+		}
+		walk(kind, msgs, maxl, c06Pattern(g.R), g.R.Intn(3) == 0, fmt.Sprintf("walk-rand%d", nf))
+	}
+
 	// (4) the empty stream
 	roundtrip(0, nil, nil, nil, nil, false, "empty-stream")
 	roundtrip(1, nil, nil, nil, []int64{1}, true, "empty-stream")
